@@ -151,6 +151,86 @@ def w_ref_reads(arg):
     return res
 
 
+# ------------------------------------------------------------------ worker: files that change or vanish while the snapshot runs
+@H.guarded
+def w_live(arg):
+    """One file of the tree is rewritten (grown / shrunk / replaced) or removed at the moment the command opens it for reading, i.e. after
+    it was collected, stat-ed and ordered.  Whatever the command then does — fail, or finish — everything it STORED must decode under the
+    documented scheme with the independent reader, the files it recorded must carry the bytes that were there to read, and replicat itself
+    must be able to restore what it listed."""
+    seed, idx, tier = arg
+    from .. import common
+    from ..impl.livefile import live_edit
+    common.use_rebuilt_chunker()
+    r = rng_for(seed, 'C14-live', idx)
+    encrypted = r.random() < 0.7
+    cipher = r.choice(CIPHERS) if encrypted else None
+    hashing = r.choice(HASHES)
+    mn, mx = r.choice(H.CHUNKING)
+    settings = R.settings_for(encrypted, cipher, hashing, {'name': 'gclmulchunker', 'min_length': mn, 'max_length': mx})
+    res = {'idx': idx, 'violations': [], 'summary': {}, 'dist': []}
+    with R.Scratch('c14l_%d' % idx) as sc:
+        w = T.SymWorld(sc, settings, password=b'pw-' + r.randbytes(5).hex().encode())
+        tree = gen_tree(r, mx, n=r.choice([2, 3, 5]))
+        if r.random() < 0.5:
+            w.snapshot(0, tree)
+        victim = r.choice(sorted(tree))
+        mode = r.choice(['vanish', 'vanish', 'grow', 'shrink', 'replace'])
+        old = tree[victim]
+        post = None if mode == 'vanish' else old + r.randbytes(r.choice([1, 3, 4, mx])) if mode == 'grow' else old[:len(old) // 2] if mode == 'shrink' else r.randbytes(len(old))
+        stored_before = set(w.backend.objects)
+        err = None
+        with live_edit(w.src / victim, post) as st:
+            try:
+                s = w.snapshot(0, tree)
+            except Exception as e:  # noqa: BLE001
+                err, s = e, None
+        expect = dict(tree)
+        if post is None:
+            expect.pop(victim)
+        else:
+            expect[victim] = post
+        expect = {str(w.src / k): v for k, v in expect.items()}
+        objects = dict(w.backend.objects)
+        nfiles = 0
+        try:
+            rd = F.Reader(objects, key_bytes=w.serialized_key(0) if encrypted else None, password=w.keys[0]['password'])
+            listed = {x['location']: x for x in rd.snapshots()}
+            if err is not None and set(listed) != {x['location'] for x in w.snaps}:
+                res['violations'].append(('c14:live:failed-snapshot-left-a-snapshot-object', f'snapshot raised {type(err).__name__} after {victim!r} {mode}, yet a new snapshot object is stored'))
+            for loc, ls in listed.items():
+                for d in ls['chunks']:
+                    rd.chunk(d)
+                if ls['data'] is None:
+                    continue
+                got = rd.files(ls)
+                nfiles += len(got)
+                if s is not None and loc == s['location'] and st['done']:
+                    for pth, (content, md) in got.items():
+                        if pth not in expect and not (mode == 'vanish' and pth == str(w.src / victim) and content == old):
+                            res['violations'].append(('c14:live:recorded-file-not-in-tree', f'{pth!r} recorded'))
+                        elif pth in expect and content != expect[pth]:
+                            res['violations'].append(('c14:live:content', f'{pth!r} ({mode}): recorded bytes differ from the bytes that were there to read'))
+                        if md is None or md.get('st_size') != len(content):
+                            res['violations'].append(('c14:live:metadata', f'{pth!r} ({mode}): recorded metadata {md} does not describe the {len(content)} recorded bytes'))
+                    missing = set(expect) - set(got)
+                    if missing:
+                        res['violations'].append(('c14:live:file-missing', f'after {victim!r} {mode} the stored snapshot lacks {sorted(missing)[:2]}'))
+        except F.FormatError as e:
+            res['violations'].append(('c14:live:undecodable', f'after {victim!r} {mode} (snapshot {"raised " + type(err).__name__ if err else "returned"}): reference reader: {e}'))
+        except (UnicodeError, ValueError, TypeError, KeyError) as e:
+            res['violations'].append(('c14:live:undecodable', f'after {victim!r} {mode}: reference reader: {type(e).__name__}: {e}'))
+        if s is not None:
+            exc, files, _ = w.restore(0)
+            if exc is not None:
+                res['violations'].append(('c14:live:replicat-cannot-restore-what-it-stored', f'after {victim!r} {mode} the snapshot command returned normally, restore then raised {type(exc).__name__}: {exc}'))
+        res['summary'] = {'dir': 'live', 'encrypted': encrypted, 'hash': hashing, 'params': [mn, mx], 'mode': mode, 'edited': st['done'], 'raised': type(err).__name__ if err else None,
+                          'files': nfiles, 'new-objects': len(set(objects) - stored_before)}
+        res['nontrivial'] = bool(st['done']) and len(tree) >= 2
+        res['dist'] = ['live:' + mode + (':raised' if err else ':returned') + ('' if st['done'] else ':NOT-EDITED')]
+    return res
+
+
 # ------------------------------------------------------------------ worker: reference writes, replicat restores
 @H.guarded
 def w_ref_writes(arg):
@@ -366,7 +446,7 @@ def run(out, drv, info):
                 '(−1 / exact / +1 / random remainder) × alone / small + empty files / second multi-block file × random / periodic / zero content × encrypted or not × '
                 'concurrency 1–4 (–8), chunk lengths such that a block holds more chunks than the producer queue (forced in-flight attribution) or the defaults; '
                 'recorded ranges vs layout.inflight (observed and earliest schedule) and layout.records, independent reader tiling per file, replicat restore.  non-trivial: (a) ≥ 1 snapshot with ≥ 2 files and ≥ 4 uploads, (b) ≥ 2 files and ≥ 4 objects, (c) ≥ 2 files '
-                'larger than one chunk, (d) non-empty input, (e) ≥ 1 file of ≥ 2 read blocks with ≥ 1 chunk attributed while that file was unfinished; distinct = hash of the case summary')
+                'larger than one chunk, (c2) live trees: one file of a 2–5 file tree is grown / shrunk / replaced / removed at the moment the snapshot opens it (after it was collected and stat-ed); whatever the command does, everything stored decodes with the independent reader, recorded bytes = bytes that were there to read, replicat restores what it listed; non-trivial = the edit happened, (d) non-empty input, (e) ≥ 1 file of ≥ 2 read blocks with ≥ 1 chunk attributed while that file was unfinished; distinct = hash of the case summary')
     out.assumptions = ['ideal cryptography in the model (free term algebra); the byte-level behaviour of json/base64/hashlib/cryptography is NOT a theorem: it is compared '
                        'against the independent reader/writer harness/ref/repo_format.py (supporting role, PARTIAL claim)',
                        'the reference implementation follows README.md (technical details + glossary) and the property statement',
@@ -377,7 +457,8 @@ def run(out, drv, info):
         sym = pool.map_async(w_symbolic, [(out.seed, i, out.tier) for i in range(n_sym)], chunksize=2)
         rd = pool.map_async(w_ref_reads, [(out.seed, i, out.tier) for i in range(n_read)], chunksize=4)
         wr = pool.map_async(w_ref_writes, [(out.seed, i, out.tier) for i in range(n_write)], chunksize=4)
-        sym, rd, wr, blk = sym.get(), rd.get(), wr.get(), blk.get()
+        lv = pool.map_async(w_live, [(out.seed, i, out.tier) for i in range(60 if quick else 600)], chunksize=2)
+        sym, rd, wr, blk, lv = sym.get(), rd.get(), wr.get(), blk.get(), lv.get()
     for obs in sym:
         if obs.get('crashed'):
             out.case({'crashed': obs['idx']}, False)
@@ -418,7 +499,7 @@ def run(out, drv, info):
                     if ent['key'] == r['user'] and (ent['error'] is not None or {p: v[0] for p, v in ent['files'].items()} != r['truth']):
                         out.violation('c14:history-restore:owner-content', f'symbolic history #{obs["idx"]}: snapshot #{r["snap"]} does not restore to the snapshotted tree',
                                       {'kind': 'sym', 'seed': out.seed, 'idx': obs['idx'], 'tier': out.tier})
-    for res in rd + wr:
+    for res in rd + wr + lv:
         if res.get('crashed'):
             out.case({'crashed': res['idx']}, False)
             out.disagreement(f'case #{res["idx"]} could not be driven / interpreted: {res["what"]}', {'kind': 'crash', 'idx': res['idx'], 'trace': res['trace']})
@@ -427,7 +508,7 @@ def run(out, drv, info):
         for d in res['dist']:
             out.count(d)
         for sig, what in res['violations']:
-            out.violation(sig, what, {'kind': 'read' if res['summary']['dir'] == 'replicat→ref' else 'write', 'seed': out.seed, 'idx': res['idx'], 'tier': out.tier,
+            out.violation(sig, what, {'kind': 'read' if res['summary']['dir'] == 'replicat→ref' else 'live' if res['summary']['dir'] == 'live' else 'write', 'seed': out.seed, 'idx': res['idx'], 'tier': out.tier,
                                       'summary': res['summary']})
     judge_blocks(out, drv, blk)
     try:
@@ -481,8 +562,8 @@ def replay(path, drv):
         print('stats', obs['stats'], 'problems', obs['problems'][:3], 'disagreements', bad[:5])
         print('restore after the history', rst, 'disagreements', rbad[:5], 'violations', rviol[:5])
         return 1 if (bad or obs['problems'] or rbad or rviol) else 0
-    if kind in ('read', 'write'):
-        res = _in_child(w_ref_reads if kind == 'read' else w_ref_writes, (rp['seed'], rp['idx'], rp.get('tier', 'quick')))
+    if kind in ('read', 'write', 'live'):
+        res = _in_child(w_ref_reads if kind == 'read' else w_live if kind == 'live' else w_ref_writes, (rp['seed'], rp['idx'], rp.get('tier', 'quick')))
         print('summary', res['summary'])
         for v in res['violations']:
             print('violation', v[0], v[1])
